@@ -9,7 +9,8 @@ Binding: ProofMBT.tla behaviours replayed on the real tries at height 251 (embed
 (node sequence compared with the model's), the model's tampering applied to the real proof objects,
 real VerifyProof outcome against the model's verdict and against the soundness / completeness
 oracles; honest proofs (incl. of the database-loaded trie2, which the RPC proves on) are also
-checked by the independent refimpl.Verify.  Range proofs: claims generated from the contract
+checked by the independent refimpl.Verify.  RPC: starknet_getStorageProof responses (wire format,
+v8/v9/v10, both state backends) verified by refimpl against the block's global state root.  Range proofs: claims generated from the contract
 (true / omit-left / omit-mid / alter-value / add-absent / empty / whole-trie) on both VerifyRangeProof.
 """
 import json
@@ -21,8 +22,10 @@ def run(ctx):
     if ctx.replay:
         with open(ctx.replay) as f:
             rp = json.load(f)
+        if rp.get("engine") == "trierpc":
+            binary = ctx.build_engine("trierpc", stubs=True)
         res = ctx.run_engine(binary, rp["test"], rp["input"])
-        ctx.absorb(res, "trie", rp["test"])
+        ctx.absorb(res, rp.get("engine", "trie"), rp["test"])
         return ctx.finish("model_checking", "replay of one recorded behaviour")
 
     thorough = not ctx.quick()
@@ -54,9 +57,24 @@ def run(ctx):
     if res.get("steps", 0) < 100:
         raise vlib.Broken("proof replay executed only %s queries" % res.get("steps"))
 
+    # ---- RPC: starknet_getStorageProof on the wire, independent verifier (engine trierpc, FFI stubs)
+    rpcbin = ctx.build_engine("trierpc", stubs=True)
+    sbeh = []
+    for i in range(3 if thorough else 1):
+        sbeh += ctx.tlc_simulate("trie", "StateMBT.tla", "State_sim.cfg", depth=32 * (40 if thorough else 24),
+                                 seed=ctx.seed * 1000 + 700 + i, timeout=900)
+    res = ctx.run_engine(rpcbin, "TestStorageProofRPC", {"behaviours": sbeh}, timeout=3000,
+                         env_extra={"CGO_LDFLAGS": "-L" + vlib.BUILD + "/lib"})
+    ctx.absorb(res, "trierpc", "TestStorageProofRPC")
+    ctx.coverage["rpc_chains"] = res.get("replayed", 0)
+    ctx.coverage["rpc_proof_checks"] = res.get("steps", 0)
+    if res.get("replayed", 0) < 10:
+        raise vlib.Broken("RPC storage-proof engine served only %s requests" % res.get("replayed"))
+
     ctx.assumptions += [
         "hashes are injective terms in Proof.tla (unforgeable up to collisions); core/crypto is trusted",
-        "range proofs are specified by their contract, not transcribed; starknet_getStorageProof (RPC assembly) is not covered by this check",
+        "range proofs are specified by their contract, not transcribed",
+        "the RPC handlers are linked against FFI stubs (the VM is never called by starknet_getStorageProof)",
         "in-place tampering (cached hash kept) and child retyping model an adversary who hands the verifier in-memory trienode objects; wire-level tampering rebuilds nodes from their content",
     ]
     return ctx.finish(
@@ -66,4 +84,7 @@ def run(ctx):
         "re-hashed path, other key, retype, stored under old key / new hash / in place); binding: TLC-simulated behaviours "
         "(key/value sets over 16 model keys, ~35 membership queries and range claims each) replayed at height 251; "
         "non-trivial = every query runs the real Prove and VerifyProof / VerifyRangeProof on a trie with >= 1 binary node "
-        "or the empty trie, absent keys at every divergence depth included")
+        "or the empty trie, absent keys at every divergence depth included; RPC: starknet_getStorageProof through the real "
+        "jsonrpc.Server (v8/v9/v10 method tables, both state backends) on chains built from StateMBT.tla behaviours, every "
+        "class / contract / storage slot (present and absent) verified on the wire format by refimpl.Verify against the "
+        "header's state root")
